@@ -1203,6 +1203,20 @@ def gc7(F, R, part="ab"):
                       detail)
             else:
                 R.ok("GC7", e.where(), "creation blanks edges, data and read status", detail)
+    if "c" in part:
+        # add() of an absent id below the capacity completes: no always-compiled assertion other than the documented preconditions
+        # (the slot exists / the id is below the capacity).  A slot left behind by a collection can hold any read status.
+        for f, bi in body.compiled_assertions():
+            if is_documented_precondition(body, f) or (f[0] == "bool" and strip_load(f[1])[0] == "ovf"):
+                continue
+            # "a vacant slot holds no unread datum" is what counter exactness (GC4) gives: a group dies only when none of its members
+            # is Stored, and an ungrouped vertex is never removed
+            if f[0] == "in" and f[2] == frozenset(["Empty", "Taken"]) and is_pers_discr_of(f[1]):
+                continue
+            # facts of the guard `tag == 0 else return` are not assertions (the other outcome returns)
+            R.bad("GC7", "GC7/Sodg::add/may-panic-on-absent-id", body.where((bi, 0)),
+                  "add() asserts something about the vacant slot (%s): re-creating a collected id can panic instead of giving a blank vertex"
+                  % show(f, body)[:160])
     if "a" in part:
         # the present path has no state event
         for o in evs:
